@@ -9,8 +9,11 @@ package suites
 import (
 	"encoding/json"
 	"fmt"
+	"math"
 	"math/big"
 	"net"
+	"os"
+	"path/filepath"
 	"strings"
 	"sync"
 	"time"
@@ -130,9 +133,18 @@ func weeksTour(res *core.Result, r *core.RNG) (*sim, error) {
 		}
 		s.impactRound(nil)
 	}
+	// fill a few hundred slots of the first week: the random insert_false_negatives rewrite touches ~2% of them
+	for _, now := range []uint32{432, 1296} {
+		w.SetNow(now)
+		for ts := now - 200; ts < now+200; ts += 2 {
+			s.send(d1, ts, 30+uint64(ts))
+		}
+	}
+	w.SetNow(3000)
 	s.stats("live1", false)
 	s.stats("live2", false)
 	s.stats("future", false)
+	s.stats("huge", false)
 	s.stats("misaligned", false)
 	s.stats("live1", true)
 	s.stats("live1", false)
@@ -229,6 +241,21 @@ func equipTour(res *core.Result, r *core.RNG) (*sim, error) {
 	s.deliverReport(s.a.report(s.w, d0, 301, 446, d0.K), "report") // banned: refused
 	s.authorizeVariant("banned-id")
 	s.authorizeVariant("conflict-field")
+	// a device at latitude +0 / longitude -0, then a second authorization that differs ONLY in the sign of
+	// a zero coordinate: different signing bytes, hence a conflict (ban), both live and after restart
+	dz := s.newDevice(1000)
+	eaz := glow.EquipmentAuthorization{ShortID: dz.ID, PublicKey: dz.K.Pub, Latitude: 0, Longitude: math.Copysign(0, -1), Capacity: 1000, Expiration: 1 << 30}
+	eaz.Signature = s.w.Sign(eaz.SigningBytes(), s.a.GCA)
+	dz.Auth = eaz
+	if ob := s.authorize(eaz, "new"); strings.Contains(ob, "Accepted true") {
+		s.a.Devices = append(s.a.Devices, dz)
+		s.authorize(eaz, "duplicate")
+		ez2 := eaz
+		ez2.Latitude = math.Copysign(0, -1)
+		ez2.Signature = s.w.Sign(ez2.SigningBytes(), s.a.GCA)
+		s.res.Count("authorize.conflict-signed-zero")
+		s.authorize(ez2, "conflict-signed-zero")
+	}
 	s.w.SnapHop()
 	s.restart(s.w.Now)
 	s.authorizeVariant("banned-id")
@@ -273,6 +300,7 @@ func registerTour(res *core.Result, r *core.RNG) (*sim, error) {
 		s.register(k)
 	}
 	s.authorizeVariant("before-registration")
+	s.registerWithWriteFault()
 	s.register("valid")
 	for _, k := range []string{"valid", "other-valid", "by-gca", "wrong-signer"} {
 		s.register(k)
@@ -420,6 +448,34 @@ func hostileTour(res *core.Result, r *core.RNG) (*sim, error) {
 	if ob := s.authorize(s.mkAuth(s.newDevice(1000), s.a.GCA), "new-with-peer-down"); ob == "ObsPanic" {
 		s.fail("authorizing equipment while an authorized peer server is down panics the handler", "panic-http:peer-down-equipment")
 	}
+	// ban that server, then announce it again (e.g. a peer that missed the ban re-forwards the old record):
+	// every endpoint that takes the server-list lock must keep answering
+	asBan := as
+	asBan.Banned = true
+	asBan.GCAAuthorization = glow.Sign(asBan.SigningBytes(), s.a.GCA.Priv)
+	jb, _ := json.Marshal(asBan)
+	w.Raw("POST", "/api/v1/authorized-servers", jb)
+	w.Raw("POST", "/api/v1/authorized-servers", j)
+	w.Raw("POST", "/api/v1/authorized-servers", jb)
+	res.Count("peer.ban-reannounce")
+	probe := make(chan int, 1)
+	go func() { probe <- w.Raw("GET", "/api/v1/authorized-servers", nil).Status }()
+	select {
+	case st := <-probe:
+		if st != 200 {
+			s.fail("GET authorized-servers fails after a banned server was announced again", "c12-liveness-serverlist")
+		}
+	case <-time.After(4 * time.Second):
+		s.fail("GET /api/v1/authorized-servers is no longer answered after a banned server was announced again (a lock is held forever)", "c12-wedged-serverlist")
+		s.alive = false
+		s.closedTerm = w.CoqCase()
+		s.res.Case(map[string]interface{}{"ops": w.Desc}, s.closedTerm, true)
+		go w.Close() // cannot finish: the stuck handlers keep the thread group busy
+		return s, nil
+	}
+	if found, _, _, _, _, err := w.Sync(d0.ID, false); err != nil || !found {
+		s.fail("TCP sync is no longer answered after server-list updates", "c12-liveness-sync")
+	}
 	// TCP sync: garbage, short and unknown-id requests
 	_, tp, _ := w.S.Ports()
 	for _, req := range [][]byte{{}, {1}, {1, 2, 3}, {0xff, 0xff, 0xff, 0xff}, r.Bytes(100)} {
@@ -486,4 +542,36 @@ func shutdownTour(res *core.Result, r *core.RNG) (*sim, error) {
 	}
 	s.alive = false
 	return s, nil
+}
+
+// registerWithWriteFault: the key file cannot be written (a directory sits where the temporary file goes):
+// the registration must be refused AND leave no trace -- not recorded for the model, since the state
+// must be exactly as before.
+func (s *sim) registerWithWriteFault() {
+	w := s.w
+	blocker := filepath.Join(w.Dir, "gcaPubKey.dat.tmp")
+	if os.Mkdir(blocker, 0755) != nil {
+		return
+	}
+	os.WriteFile(filepath.Join(blocker, "x"), []byte("x"), 0644)
+	before := w.S.VerifSnapshot()
+	cand := srv.DetKey(s.r)
+	reg := server.GCARegistration{GCAKey: cand.Pub}
+	reg.Signature = glow.Sign(reg.SigningBytes(), w.Temp.Priv)
+	j, _ := json.Marshal(reg)
+	rr := w.Raw("POST", "/api/v1/register-gca", j)
+	after := w.S.VerifSnapshot()
+	os.RemoveAll(blocker)
+	s.res.Count("register.write-fault")
+	if rr.Status == 200 {
+		// the platform let the write through (e.g. another write strategy): then it is an ordinary registration
+		s.fail("a registration whose key file could not be written was answered 200", "c07-write-fault-accepted")
+		return
+	}
+	if viewJSON(before, true) != viewJSON(after, true) {
+		s.fail("a registration that failed to persist (I/O error on the key file) still took effect in memory: the server honours a key it will forget at restart", "c07-set-before-persist")
+	}
+	if _, err := os.Stat(filepath.Join(w.Dir, "gcaPubKey.dat")); err == nil {
+		s.fail("a failed registration left a key file behind", "c07-write-fault-file")
+	}
 }
